@@ -49,7 +49,7 @@ def step (st : St) (cmd : String) (impl : String) : St × Verdict :=
   | "psearch" =>
     let pre := B 1
     let rx := (f.getD 2 "0").toNat?.getD 0
-    if rx ≥ 4 then (st, { model := "err off=0", specOk := some (impl == "err off=0"), spec := "err", cell := "psearch/badrx" })
+    if DBSuite.rxBad rx then (st, { model := "err off=0", specOk := some (impl == "err off=0"), spec := "err", cell := "psearch/badrx" })
     else
       let (l, off) := st.t.prefixScan pre (I 3) (I 4) (fun k => DBSuite.rxMatch rx (k.drop pre.length))
       let m := (if l.isEmpty then "err" else showKVs l) ++ s!" off={off}"
